@@ -54,4 +54,4 @@ def run(chk):
         if hd:
             seqcommon.run(chk, hd, [(chk.seed * 50 + 9, ops // 2, 0, 0)], ('c10_',), tag='dbg')
         # concurrent clause: heap deletion racing remote frees under the deterministic scheduler
-        t3common.stress(chk, d, 10 if not thorough else 200, modes=(2, 6), keys=('double_handout', 'content_changed', 'blocks_left_behind', 'abandoned_left_behind', 'alloc_failed'))
+        t3common.stress(chk, d, 200 if not thorough else 1500, modes=(2, 6), ops=200, keys=('double_handout', 'content_changed', 'blocks_left_behind', 'abandoned_left_behind', 'alloc_failed'))
